@@ -3,7 +3,8 @@
 // Pattern S: ONE real `DataReaderEntity::<()>::read` / `take` (both are thin wrappers around
 // `create_sample_collection`, which is where all the work happens) from a directly constructed
 // symbolic pre-state.  The list lengths are concrete per harness (N stored samples, M instances),
-// every scalar in them is symbolic.  The oracle is the reference filter `select` below plus the
+// every scalar in them is symbolic.  (Two stored samples are out of reach: measured > 13 GB with
+// unwind 3, see vlib/ptab/reader_cache2.py; the generic body supports them.)  The oracle is the reference filter `select` below plus the
 // DDS 1.4 definitions of the ranks (2.2.2.5.1.x):
 //   sample_rank              = number of samples of the same instance that follow in the collection
 //   generation_rank          = (MRSIC.dgc + MRSIC.nwgc) - (S.dgc + S.nwgc)   (2.2.2.5.1.10)
@@ -460,27 +461,6 @@ fn c20_read_n1() {
     kani::cover!(o.badparam, "BadParameter for an unknown handle");
 }
 
-// @check props=C20,C22 tier=thorough timeout=2400
-// @desc read with two stored samples: the returned list is exactly the first max_samples matching samples in storage order with sample_rank per DDS 2.2.2.5.1.9; read marks exactly those READ and keeps all
-// @bounds 2 stored samples over 2 instances (fully symbolic view/instance state, generation counts 0..10^6, handle with 2 symbolic bytes), all three masks: every non-empty subset (two symbolic slots or ANY), max_samples 1..=4 or i32::MAX, specific handle none/known/unknown; unwind 3
-// @assume I1: one InstanceState per handle and every stored sample has one; reader enabled
-// @assume I2: sample generation counts 0..10^6, <= the instance's current counts, non-decreasing along the storage order of an instance
-// @assume stub: InstanceHandle == is replaced by the equivalent branch-free 128-bit comparison (support_reader2::ih_eq; equivalence with the derived PartialEq proved over all inputs by c20_stub_equivalence)
-// @enc dcps::dcps_domain_participant::data_reader_entity::DataReaderEntity::create_sample_collection
-// @enc dcps::dcps_domain_participant::data_reader_entity::DataReaderEntity::read
-#[kani::proof]
-#[kani::unwind(3)]
-#[kani::stub(<InstanceHandle as PartialEq<InstanceHandle>>::eq, super::support_reader2::ih_eq)]
-fn c20_read_n2() {
-    let o = c20_body::<2, 2, 2, true>(false, Mode::Main);
-    kani::cover!(o.ok && !o.specific, "a collection was returned");
-    kani::cover!(o.ok && o.specific, "a collection was returned for a specific instance");
-    kani::cover!(o.nodata, "NoData");
-    kani::cover!(o.badparam, "BadParameter for an unknown handle");
-    kani::cover!(o.ok && o.nsel == 1, "a proper sub-list was returned");
-    kani::cover!(o.ok && o.nsel == 2, "both samples were returned");
-}
-
 // @check props=C20 tier=quick
 // @desc take on an empty cache: NoData, or BadParameter for an unknown instance handle; nothing changes
 // @bounds 0 stored samples, 2 instances (fully symbolic view/instance state, generation counts 0..10^6, handle with 2 symbolic bytes), all three masks: every non-empty subset (two symbolic slots or ANY), max_samples 1..=4 or i32::MAX, specific handle none/known/unknown; unwind 3
@@ -497,7 +477,7 @@ fn c20_take_n0() {
     kani::cover!(o.badparam, "BadParameter for an unknown handle");
 }
 
-// @check props=C20,C22 tier=quick
+// @check props=C20 tier=quick
 // @desc take with one stored sample: it is returned iff it matches the three masks (and the requested instance); take removes it; SampleInfo states/counts/handles/valid_data/sample_rank; the instance becomes NOT_NEW and nothing else of any instance changes (C22: read/take never change instance_state or generation counts); NoData iff nothing matches; BadParameter iff the handle is unknown
 // @bounds 1 stored sample (all 5 change kinds, symbolic writer/timestamp/counts) of 1 instance (fully symbolic view/instance state, generation counts 0..10^6, handle with 2 symbolic bytes), sample- and view-state masks: every non-empty subset (one symbolic slot or ANY); instance-state mask: every singleton, max_samples 1..=4 or i32::MAX, specific handle none/known/unknown; unwind 2 (every loop of the operation runs at most once here; a larger bound multiplies the formula, see the ptab entry)
 // @assume I1: one InstanceState per handle and every stored sample has one; reader enabled
@@ -535,27 +515,6 @@ fn c20_take_n1() {
     kani::cover!(o.badparam, "BadParameter for an unknown handle");
 }
 
-// @check props=C20,C22 tier=thorough timeout=2400
-// @desc take with two stored samples: the returned list is exactly the first max_samples matching samples in storage order with sample_rank per DDS 2.2.2.5.1.9; take removes exactly those and leaves the others untouched and in order
-// @bounds 2 stored samples over 2 instances (fully symbolic view/instance state, generation counts 0..10^6, handle with 2 symbolic bytes), all three masks: every non-empty subset (two symbolic slots or ANY), max_samples 1..=4 or i32::MAX, specific handle none/known/unknown; unwind 3
-// @assume I1: one InstanceState per handle and every stored sample has one; reader enabled
-// @assume I2: sample generation counts 0..10^6, <= the instance's current counts, non-decreasing along the storage order of an instance
-// @assume stub: InstanceHandle == is replaced by the equivalent branch-free 128-bit comparison (support_reader2::ih_eq; equivalence with the derived PartialEq proved over all inputs by c20_stub_equivalence)
-// @enc dcps::dcps_domain_participant::data_reader_entity::DataReaderEntity::create_sample_collection
-// @enc dcps::dcps_domain_participant::data_reader_entity::DataReaderEntity::take
-#[kani::proof]
-#[kani::unwind(3)]
-#[kani::stub(<InstanceHandle as PartialEq<InstanceHandle>>::eq, super::support_reader2::ih_eq)]
-fn c20_take_n2() {
-    let o = c20_body::<2, 2, 2, true>(true, Mode::Main);
-    kani::cover!(o.ok && !o.specific, "a collection was returned");
-    kani::cover!(o.ok && o.specific, "a collection was returned for a specific instance");
-    kani::cover!(o.nodata, "NoData");
-    kani::cover!(o.badparam, "BadParameter for an unknown handle");
-    kani::cover!(o.ok && o.nsel == 1, "a proper sub-list was returned");
-    kani::cover!(o.ok && o.nsel == 2, "both samples were returned");
-}
-
 // @check props=C20 tier=quick known=KF-C20-1
 // @desc generation_rank and absolute_generation_rank of the returned sample equal the DDS definitions (2.2.2.5.1.10/11) computed from the sample's own generation counts -- restricted to the trigger of KF-C20-1 (expected to fail)
 // @bounds 1 stored sample of 1 instance (fully symbolic view/instance state, generation counts 0..10^6, handle with 2 symbolic bytes), sample- and view-state masks: every non-empty subset (one symbolic slot or ANY); instance-state mask: every singleton, max_samples 1..=4 or i32::MAX, specific handle none/known/unknown; unwind 2
@@ -590,24 +549,6 @@ fn c20_ranks_n1__known() {
 fn c20_ranks_n1__rest() {
     let o = c20_body::<1, 1, 1, false>(false, Mode::RanksRest);
     kani::cover!(o.ok, "a collection was returned");
-}
-
-// @check props=C20 tier=thorough timeout=2400
-// @desc as c20_ranks_n1__rest with two stored samples (generation_rank relative to the most recent sample of the instance in the collection)
-// @bounds 2 stored samples over 2 instances (fully symbolic view/instance state, generation counts 0..10^6, handle with 2 symbolic bytes), all three masks: every non-empty subset (two symbolic slots or ANY), max_samples 1..=4 or i32::MAX, specific handle none/known/unknown; unwind 3
-// @assume negation of trigger KF-C20-1: every returned sample's own disposed+no_writers generation count equals the number of not-alive->alive transitions among the returned samples of its instance up to and including it
-// @assume I1: one InstanceState per handle and every stored sample has one; reader enabled
-// @assume I2: sample generation counts 0..10^6, <= the instance's current counts, non-decreasing along the storage order of an instance
-// @assume known instance handle; at least one sample matches
-// @assume stub: InstanceHandle == is replaced by the equivalent branch-free 128-bit comparison (support_reader2::ih_eq; equivalence with the derived PartialEq proved over all inputs by c20_stub_equivalence)
-// @enc dcps::dcps_domain_participant::data_reader_entity::DataReaderEntity::create_sample_collection
-// @enc dcps::dcps_domain_participant::data_reader_entity::DataReaderEntity::read
-#[kani::proof]
-#[kani::unwind(3)]
-#[kani::stub(<InstanceHandle as PartialEq<InstanceHandle>>::eq, super::support_reader2::ih_eq)]
-fn c20_ranks_n2__rest() {
-    let o = c20_body::<2, 2, 2, true>(false, Mode::RanksRest);
-    kani::cover!(o.ok && o.nsel == 2, "two samples were returned");
 }
 
 // @check props=C20,C22,C23,C24 tier=quick
